@@ -66,6 +66,25 @@ ASSUMPTIONS = ["'the encoder accepts' = encode returns without exception; on wel
                "differing values, which is an encoder rejection, not a round-trip failure)"]
 
 
+# --- tie of kind (1) (task W15): Gen/MuxDefaultKey.lean is regenerated from Multiplexer._get_default_case_key of the current source by
+# the Python->Lean translator and proved equal to the hand-written defaultCaseKey (Proofs/MuxDefaultKeyGenEq.lean)
+LEAN_TARGETS = LEAN_TARGETS + ["OdxVerif.Props.C01Gen"]
+THEOREMS = THEOREMS + ["OdxVerif.Codec." + t for t in ["gen_defaultCaseKey_eq", "sortedIntPair_eq_foldl", "C01_gen_mux_default_key"]]
+TRUSTED = TRUSTED + ["translator harness/extract/py2lean.py + primitives lean/OdxVerif/Model/PyRt.lean for Multiplexer._get_default_case_key "
+                     "(self.cases / self._get_case_limits(x) are an abstract record interface of the rendering: the model's case list with "
+                     "integer limits; sorted() of integer pairs = Py.sortedIntPair, lexicographic)"]
+
+
+def regen_mux_default_key(ctx):
+    """Gen/MuxDefaultKey.lean from the current source; Unsupported (source left the translator's subset) = broken obligation"""
+    import common
+    from extract import py2lean
+    py2lean.regenerate_muxkey(common.REPO, common.VERIF)
+
+
+GENERATORS = list(globals().get("GENERATORS", [])) + [regen_mux_default_key]
+
+
 # ------------------------------------------------------------------ corpus (defects of the pinned commit, minimised)
 def corpus():
     u8, val, C = D.u8, D.value, D.Composite
